@@ -41,12 +41,39 @@ theorem C14_next_element_total (pj : PJ) (o : View) (hl : o.lim ≤ pj.tape.size
     SJ.WalkSafe.OkOrErr (View.parse pj o #[] (fuelOf pj)) := SJ.WalkSafe.parse_safe pj o hl
 
 /-- **No reader misreads a gap**: `Advance`, `AdvanceInto`, `AdvanceIter`, `PeekNextTag` started anywhere in a
-    gap behave exactly as if started at its end. -/
+    gap behave exactly as if started at its end — with the payload register `cur` holding the skip count `c` of the
+    last NOP word stepped on (Go's loops overwrite `i.cur` on every iteration; `c` is the old payload if the gap is
+    empty). The register is overwritten by the next word read, so it shows only when the gap ends at the end of
+    the view (`C14_gap_skipped_inside`). -/
 theorem C14_gap_skipped (pj : PJ) (i : Iter) {a b : Nat} (g : Gap pj a b) (hb : b ≤ i.lim) :
+    ∃ c, (a = b → c = i.cur) ∧
+    Iter.advanceLoop pj i a = Iter.advanceLoop pj { i with cur := c } b ∧
+    Iter.advanceIntoLoop pj i a = Iter.advanceIntoLoop pj { i with cur := c } b ∧
+    Iter.advanceIterLoop pj i a = Iter.advanceIterLoop pj { i with cur := c } b ∧
+    Iter.peekLoop pj i.lim a = Iter.peekLoop pj i.lim b := by
+  obtain ⟨c, h0, h1, h2, h3⟩ := WalkLayout.loops_gap pj i g hb
+  exact ⟨c, h0, h1, h2, h3, WalkLayout.peekLoop_gap pj i.lim g hb⟩
+
+/-- A gap that ends inside the view: all four readers behave exactly as if started at its end (same result, same
+    iterator). -/
+theorem C14_gap_skipped_inside (pj : PJ) (i : Iter) {a b : Nat} (g : Gap pj a b) (hb : b < i.lim) :
     Iter.advanceLoop pj i a = Iter.advanceLoop pj i b ∧ Iter.advanceIntoLoop pj i a = Iter.advanceIntoLoop pj i b ∧
     Iter.advanceIterLoop pj i a = Iter.advanceIterLoop pj i b ∧ Iter.peekLoop pj i.lim a = Iter.peekLoop pj i.lim b :=
   ⟨WalkLayout.advanceLoop_gap pj i g hb, WalkLayout.advanceIntoLoop_gap pj i g hb,
-   WalkLayout.advanceIterLoop_gap pj i g hb, WalkLayout.peekLoop_gap pj i.lim g hb⟩
+   WalkLayout.advanceIterLoop_gap pj i g hb, WalkLayout.peekLoop_gap pj i.lim g (Nat.le_of_lt hb)⟩
+
+/-- A gap that ends at the end of the view: the three advancing readers park the cursor there (`false` = no live
+    word), `t = TagEnd`, `addNext = 0`, and `cur` is the last skip count. -/
+theorem C14_gap_skipped_to_end (pj : PJ) (i : Iter) {a : Nat} (g : Gap pj a i.lim) :
+    ∃ c, (a = i.lim → c = i.cur) ∧
+    Iter.advanceLoop pj i a = .ok ({ i with off := i.lim, addNext := 0, cur := c, t := tagEnd }, false) ∧
+    Iter.advanceIntoLoop pj i a = .ok ({ i with off := i.lim, addNext := 0, cur := c, t := tagEnd }, false) ∧
+    Iter.advanceIterLoop pj i a = .ok ({ i with off := i.lim, addNext := 0, cur := c, t := tagEnd }, false) := by
+  obtain ⟨c, h0, h1, h2, h3⟩ := WalkLayout.loops_gap pj i g (Nat.le_refl _)
+  refine ⟨c, h0, ?_, ?_, ?_⟩
+  · rw [h1, Iter.advanceLoop]; simp
+  · rw [h2, Iter.advanceIntoLoop]; simp
+  · rw [h3, Iter.advanceIterLoop]; simp
 
 /-- … and so does `NextElementBytes` (it spends at most one unit of its budget per NOP entry). -/
 theorem C14_gap_skipped_neb (pj : PJ) (lim : Nat) {a b : Nat} (g : Gap pj a b) (hb : b ≤ lim) :
